@@ -73,7 +73,7 @@ func c15Text(c C15Case) string {
 var c15Targets = map[string]string{"/small": "pull", "/p": "pull", "/d1": "https://one.example.org/h", "/d2": "https://two-b.example.org/h", "/m": "pull", "/out": "https://out.example.org/h",
 	"/off": "pull", "/nodirect": "pull"}
 
-var c15Invalid = []string{"unknown-route", "relative-route", "managed-route", "selector-hint", "target-not-allowed", "target-ambiguous", "publish-off", "direct-off",
+var c15Invalid = []string{"unknown-route", "sub-route", "sub-route", "relative-route", "managed-route", "selector-hint", "target-not-allowed", "target-ambiguous", "publish-off", "direct-off",
 	"payload-too-large", "bad-base64", "headers-too-large", "bad-header-name", "bad-header-value", "bad-received-at", "bad-next-run-at", "blank-id", "dup-in-batch",
 	"dup-in-batch-padded", "id-exists", "empty-route"}
 
@@ -174,6 +174,15 @@ func c15Build(c C15Case) (items []map[string]any, invalid map[int]string) {
 				kind = ""
 			} else {
 				m["route"] = "/nope"
+			}
+		case "sub-route":
+			// a path below a configured route is not a route (ingress matches by prefix, publish names routes)
+			if c.Scoped {
+				kind = ""
+			} else {
+				base := []string{"/p", "/off", "/small", "/m", "/d1", "/nodirect"}[(i+it.PayLen+it.Hdr)%6]
+				m["route"] = base + []string{"/sub", "/x/y", "/."}[(i+it.TS)%3]
+				m["target"] = c15Targets[base]
 			}
 		case "relative-route":
 			if c.Scoped {
